@@ -98,7 +98,7 @@ func famIDStorm(w *World, c *Case, rng *rand.Rand) {
 	}})
 	var specs []*RPCSpec
 	per := 1 + rng.Intn(3)
-	o := ScriptOpts{MaxMsgs: 2, MaxSize: 20000, Pacing: "eager"}
+	o := ScriptOpts{FlowControl: w.Cfg.RevisionOne(), MaxMsgs: 2, MaxSize: 20000, Pacing: "eager"}
 	for i := 0; i < g*per; i++ {
 		s := GenRPC(rng, fmt.Sprintf("s%d", i), o)
 		switch rng.Intn(10) {
